@@ -72,6 +72,43 @@ CLAIMED["C17"] = (
     "DESIGN.md section 4 C17",
 )
 
+CLAIMED["C04"] = (
+    "GUARD tables, symbolic channel-capacity accounting (capacity term = trip-count bound of every pushing loop), acquire/release/send counting per path under both values of the nil-semaphore predicate, goroutine join reachability, mod/ref",
+    "Decides for the 16 MSM instances: MultiExp refuses mismatched lengths and task counts above 1024; the token channel of _innerMsm has capacity equal to the sum of the bounds of the loops that push tokens (so neither the dispatcher nor a worker can block on a send whatever the chunk statistics) - the condition for termination under every schedule; every chunk processor receives and returns the token exactly once and sends exactly one result, release before send; the recursive split is awaited; points and scalars are never written.",
+    "The value of the sum, bucket arithmetic and digit recoding are value-level: not decided.",
+    "DESIGN.md section 4 C04",
+)
+CLAIMED["C05"] = (
+    "GUARD tables, call-structure data flow (which call's result is returned), guard-at-instruction (filter), mod/ref",
+    "Decides for the 7 pairing curves: size mismatches are errors in both Miller loops; Pair = FinalExponentiation of MillerLoop and PairingCheck = comparison of Pair with one (same for the fixed-argument variants), so the variants share one pipeline; pairs are kept only when neither member is infinite; no entry point writes its point lists or precomputed lines (found and fixed: MillerLoopFixedQ scaled the caller's lines).",
+    "Bilinearity, non-degeneracy and equality of the two Miller loops as values are not decided.",
+    "DESIGN.md section 4 C05",
+)
+CLAIMED["C09"] = (
+    "cross-configuration loading (amd64 default, purego; thorough: arm64) with sibling discovery, predicate evaluation of entry decision lists over a finite set of length orderings x CPU-flag values, callee-set comparison",
+    "Decides for every function whose body differs between build configurations (116 pairs quick, 240 thorough): identical signatures; for the 80 with slice inputs, identical panic-or-not behaviour for every assignment of representative lengths and every value of the CPU feature flags (explicit panics, &s[0], s[a:], inlined generic helpers); functions branching on a CPU flag call every generic helper their purego sibling calls. Found and fixed: Vector.Add/Sub/InnerProduct on empty or mismatched vectors.",
+    "Assembly is a trusted base: bit-equality of assembly and Go results is not decided.",
+    "DESIGN.md section 4 C09",
+)
+CLAIMED["C10"] = (
+    "GUARD on the domain codec, mod/ref (domain read-only), interprocedural write-partition rule for parallel closures, goroutine join path rule, switch exhaustiveness on the AST",
+    "Decides for the 10 FFT packages: Domain.ReadFrom accepts only fully read, canonical data (any reader chunking) and WriteTo tests every write; FFT/FFTInverse never write the domain; every parallel closure writes only its own index range (also through forwarded range helpers); spawned recursive halves are awaited on every path and close their done channel by defer; the decimation switch is exhaustive with a panicking default.",
+    "The linear map computed, twiddle values and unrolled kernels are value-level: not decided (a wrong scaling factor in one option combination is out of reach).",
+    "DESIGN.md section 4 C10",
+)
+CLAIMED["C13"] = (
+    "GUARD tables, guarded-slicing prover on the output buffer, must-pass-through (dominance) for cofactor clearing and isogeny, raw-limb discipline (Montgomery limbs are not numbers)",
+    "Decides: ExpandMsgXmd errors on negative/oversized requests and oversized tags, hashes msg, length, dst and dst length with every write tested, and never slices its caller-sized buffer out of bounds (found and fixed: outputs shorter than 32 bytes panicked); every field's Hash delegates with count*L; every EncodeTo/HashTo/MapTo of a group with a cofactor passes through ClearCofactor before returning and through the isogeny first on SSWU curves; outside the field packages no Montgomery-form limb is used as a number (sgn0 must read Bits()).",
+    "RFC 9380 vectors, the map formulas and subgroup membership of the values are not decided.",
+    "DESIGN.md section 4 C13",
+)
+CLAIMED["C20"] = (
+    "abstract interpretation of (basis, layout) typestate on the AST with the fft contract as transfer table, degenerate-operand lint, clone field completeness, index-normalisation idiom",
+    "Decides for the 7 iop packages: every arm of the five conversion methods, from each form it lists, applies FFT/FFTInverse/BitReverse calls whose preconditions hold and ends in the form it records (224 arm x form obligations); no arithmetic on a never-assigned local element (found and fixed: Evaluate for shifts > 5); Clone/ShallowClone define every field; GetCoeff reduces its position into [0,n) (found and fixed: negative shifts).",
+    "Evaluation values, barycentric formula, ratio builders, multilinear folding are value-level: not decided.",
+    "DESIGN.md section 4 C20",
+)
+
 NOT_YET = "check not built yet in this revision of /verif (see DESIGN.md section 4 for the planned structural clauses); the value-level core is not decidable by static analysis"
 
 def main():
